@@ -41,6 +41,11 @@ type c29GetWant struct {
 	Must    []*rbRec // samples certainly inside the window
 	OptHead []*rbRec // within the quantisation band around the start: may count as lead-in or as first samples
 	OptTail []*rbRec // within the band around the end: may be present or not
+	// Weak: only under the known tail-cut defect, when samples of this track before the end of the window sit in
+	// parts that are not read at all: then which lead-in survives is a consequence of that defect, and only
+	// "contiguous, ordered, nothing at or after the end of the window" is checked for the track.
+	Weak     bool
+	WeakPool []*rbRec // every recorded sample of the track before the end of the window
 }
 
 // c29Run returns the index of the continuous recording /get serves for start s, or -1.
@@ -76,7 +81,15 @@ func c29PartAfter(r *rbRec, seg, part int) bool {
 	return r.Seg > seg || (r.Seg == seg && r.Part > part)
 }
 
-func c29GetOracle(ds *rbDiskSession, spec *rbSpec, s time.Time, d time.Duration, tol time.Duration, excluded *int) []c29GetWant {
+// c29KeySegOverlap: confirmed deviation (see TestVerifC29RegressSegmentOverlap). Consecutive segments overlap in time
+// (a new segment starts at the oldest pending sample of any track, e.g. an audio sample, while the previous segment
+// still holds later samples of the other track); /get starts reading at the segment with the largest start <= the
+// requested start, so samples of the window that sit at the end of the previous segment are not returned.
+const c29KeySegOverlap = "c29-get-skips-tail-of-previous-segment"
+
+func c29GetOracle(ds *rbDiskSession, spec *rbSpec, s time.Time, d time.Duration, tol time.Duration, firstSeg int,
+	excluded *int, exclOverlap *int,
+) []c29GetWant {
 	var out []c29GetWant
 	e := s.Add(d)
 	cutSeg, cutPart := 1<<30, 1<<30
@@ -97,6 +110,18 @@ func c29GetOracle(ds *rbDiskSession, spec *rbSpec, s time.Time, d time.Duration,
 		for i := range recs {
 			r := &recs[i]
 			t := r.Fed.T
+			if r.Seg < firstSeg {
+				if !t.Before(s.Add(-tol)) && t.Before(e.Add(-tol)) {
+					*exclOverlap++
+				}
+				continue
+			}
+			if t.Before(e.Add(tol)) {
+				w.WeakPool = append(w.WeakPool, r)
+				if c29PartAfter(r, cutSeg, cutPart) {
+					w.Weak = true
+				}
+			}
 			switch {
 			case t.Before(s.Add(-tol)):
 				if !r.NonSync {
@@ -107,6 +132,7 @@ func c29GetOracle(ds *rbDiskSession, spec *rbSpec, s time.Time, d time.Duration,
 			case t.Before(e.Add(-tol)):
 				if c29PartAfter(r, cutSeg, cutPart) {
 					w.OptTail = append(w.OptTail, r)
+					w.Weak = true
 					*excluded++
 				} else {
 					w.Must = append(w.Must, r)
@@ -117,7 +143,9 @@ func c29GetOracle(ds *rbDiskSession, spec *rbSpec, s time.Time, d time.Duration,
 		}
 		if lastSync >= 0 {
 			for i := lastSync; i < len(recs) && recs[i].Fed.T.Before(s.Add(-tol)); i++ {
-				w.Lead = append(w.Lead, &recs[i])
+				if recs[i].Seg >= firstSeg {
+					w.Lead = append(w.Lead, &recs[i])
+				}
 			}
 		}
 		out = append(out, w)
@@ -160,6 +188,20 @@ func c29CheckGet(got []rbOutTrack, want []c29GetWant, spec *rbSpec, s time.Time,
 		describe := fmt.Sprintf("track %d: returned units %v; oracle lead-in %s, optional head %s, window %s, optional tail %s",
 			w.Track+1, ids, name(w.Lead), name(w.OptHead), name(w.Must), name(w.OptTail))
 
+		if w.Weak {
+			for i, id := range ids {
+				ok := false
+				for _, r := range w.WeakPool {
+					if r.Fed.Idx == id {
+						ok = bytes.Equal(samples[i].Payload, r.Payload)
+					}
+				}
+				if !ok || (i > 0 && id != ids[i-1]+1) {
+					return fmt.Errorf("(weak check behind %s) unit %d unexpected: %s", c29KeyTailCut, id, describe)
+				}
+			}
+			continue
+		}
 		// expected sequence = [Lead] + OptHead' + Must + OptTail' where the optional parts are contiguous
 		pos := 0
 		// lead-in: all or nothing
@@ -215,7 +257,8 @@ func c29CheckGet(got []rbOutTrack, want []c29GetWant, spec *rbSpec, s time.Time,
 			return fmt.Errorf("sample outside the window returned (unit %d): %s", ids[pos], describe)
 		}
 		// decodability: a window that begins with a non-sync sample needs its lead-in
-		if len(visible) > 0 && visible[0].NonSync && !leadPresent {
+		// (only when the recording holds that lead-in: a recording may itself begin with a non-sync sample, C27's business)
+		if len(visible) > 0 && visible[0].NonSync && !leadPresent && len(w.Lead) > 0 {
 			return fmt.Errorf("window begins with a non-random-access sample but its lead-in is absent: %s", describe)
 		}
 		// payloads, flags, timestamps
@@ -515,12 +558,35 @@ func c29OneGet(srv *Server, disk []rbDiskSession, spec *rbSpec, s time.Time, d t
 	if ambiguous && run > 0 {
 		candidates = append(candidates, run-1)
 	}
-	var firstErr error
+	type cand struct{ run, firstSeg int }
+	var cands []cand
 	for _, ri := range candidates {
-		excl := 0
-		want := c29GetOracle(&disk[ri], spec, s, d, tol, &excl)
+		if !kit.Known(c29KeySegOverlap) {
+			cands = append(cands, cand{ri, 0})
+			continue
+		}
+		// the segment /get starts from: the one with the largest start <= s (both neighbours when within the band)
+		fs := 0
+		for gi, sg := range disk[ri].Segs {
+			if !s.Before(sg.Start) {
+				fs = gi
+			}
+		}
+		cands = append(cands, cand{ri, fs})
+		if fs > 0 && rbAbsDur(s.Sub(disk[ri].Segs[fs].Start)) <= tol && tol > 0 {
+			cands = append(cands, cand{ri, fs - 1})
+		}
+	}
+	var firstErr error
+	for _, ca := range cands {
+		ri := ca.run
+		excl, exclOv := 0, 0
+		want := c29GetOracle(&disk[ri], spec, s, d, tol, ca.firstSeg, &excl, &exclOv)
 		if excl > 0 {
 			kit.R("TestVerifC29Exact").Excluded(c29KeyTailCut)
+		}
+		if exclOv > 0 {
+			kit.R("TestVerifC29Exact").Excluded(c29KeySegOverlap)
 		}
 		must := 0
 		opt := 0
@@ -572,5 +638,29 @@ func c29OneGet(srv *Server, disk []rbDiskSession, spec *rbSpec, s time.Time, d t
 			firstErr = err
 		}
 	}
-	return fmt.Errorf("%v [query %s]", firstErr, q.Encode())
+	return fmt.Errorf("%v [query %s]\nlayout around the start: %s", firstErr, q.Encode(), c29Layout(&disk[run], spec, s))
+}
+
+// c29Layout renders where the samples around s sit on disk (diagnostics only).
+func c29Layout(ds *rbDiskSession, spec *rbSpec, s time.Time) string {
+	var b strings.Builder
+	for gi, sg := range ds.Segs {
+		fmt.Fprintf(&b, "seg%d@%+v ", gi, sg.Start.Sub(s))
+	}
+	for tr := 0; tr < spec.nTracks(); tr++ {
+		fmt.Fprintf(&b, "| track %d:", tr+1)
+		for i := range ds.Tracks[tr] {
+			r := &ds.Tracks[tr][i]
+			d := r.Fed.T.Sub(s)
+			if d < -400*time.Millisecond || d > 400*time.Millisecond {
+				continue
+			}
+			k := ""
+			if !r.NonSync && tr == 0 && spec.Video != "" {
+				k = "K"
+			}
+			fmt.Fprintf(&b, " u%d%s@%+v(seg%d.p%d)", r.Fed.Idx, k, d, r.Seg, r.Part)
+		}
+	}
+	return b.String()
 }
